@@ -10,6 +10,18 @@ def run(ctx):
     # self-test: with the pinned tree's update path (log only) storage differs from the effect of the requests
     ctx.tlc_gen("MC_Persist", gen(legacy_updates="TRUE", crash="FALSE", invs=INVS, maxops=2, maxhist=6),
                 "legacy-selftest", expect_violation=True, workers=4)
+    # self-test: a storage step that trusts the usage counter ("no nodes counted: nothing to update") loses an update once a
+    # deletion of an id that was never stored has driven the counter to 0 (CreateNode 1; DeleteNode 2; UpdateNode 1)
+    ctx.tlc_gen("MC_Persist", gen(skip_update="TRUE", crash="FALSE", invs=INVS, maxops=3, maxhist=6, edgeids="{}", labels="LS1"),
+                "counter-selftest", expect_violation=True, workers=4)
+    # UN-sampled: every sequence of <= 3 (quick) / <= 4 requests over a nodes-only alphabet (ids {1,2}: create {k:1}, delete,
+    # update {k:2}; deletions / updates of absent ids included) and over its relationship analogue (two nodes given,
+    # relationship ids {1,2}: create, delete, update), each followed by shutdown + recovery on every replica
+    small = dict(crash="FALSE", invs=INVS, maxops=3 if q else 4, maxhist=6 if q else 7, createvals="{1}", view="",
+                 emit="ACTION_CONSTRAINT EmitRec")
+    exhaustive = ctx.tlc_gen("MC_Persist", gen(edgeids="{}", labels="LS1", **small), "nodes-all", workers=WORKERS, timeout=1800)
+    exhaustive += ctx.tlc_gen("MC_Persist", gen(nodeids="{}", edgeids="{1, 2}", seedmain="TRUE", **small), "rels-all", workers=WORKERS,
+                              timeout=1800)
     # every request sequence of <= 2 (quick) / <= 3 requests over the full alphabet (requests incl. relationships to
     # missing nodes, deletions of absent ids, updates of absent ids), each followed by shutdown + recovery
     scripts = ctx.tlc_gen("MC_Persist", gen(crash="FALSE", invs=INVS, maxops=2, maxhist=5, labels="LS2", view="",
@@ -29,10 +41,13 @@ def run(ctx):
                                               emit="ACTION_CONSTRAINT EmitRec"),
                             "allseq4", workers=WORKERS, timeout=1800)
     scripts += cap(ctx, more, 70 if q else 600)
+    scripts += exhaustive
     # every script is one request sequence followed by Restart, Recover
     scripts = [s for s in scripts if [st["op"] for st in s[-2:]] == ["Restart", "Recover"]
                and not any(st["op"] in ("Restart", "Recover", "Crash") for st in s[1:-2])]
-    ctx.assume("one tenant; node ids {1,2}, one relationship id, label lists [], [A], [A,B]; property maps {} or {k: v}; an update carries "
+    ctx.assume("replayed without sampling: all sequences of <= 3 (quick) / <= 4 requests over {create, delete, update} x node ids {1,2}, "
+               "and the same over relationship ids {1,2} between two given nodes; the other families are seeded samples",
+               "one tenant; node ids {1,2}, one relationship id, label lists [], [A], [A,B]; property maps {} or {k: v}; an update carries "
                "the full map {k: v} (replace = merge)",
                "a request answered with an error must have no effect, one answered without error must have its effect; whether a "
                "relationship to a missing node is accepted is left open (its answer decides), as long as every replica decides alike",
